@@ -644,6 +644,43 @@ def func_from_pyfunc(pyfunc, spec=False):
     return f
 
 
+_TRIVIAL = {}
+
+
+def is_trivial_accessor(pyf):
+    """one-line accessors `return self.<attr>` / `lambda self: self.<attr>` / `self._x = v` are read from the class
+    body and interpreted (DESIGN 2.1): they carry no logic of their own"""
+    r = _TRIVIAL.get(pyf)
+    if r is not None:
+        return r
+    r = False
+    try:
+        f = func_from_pyfunc(pyf)
+        node = f.node
+        args = [a.arg for a in node.args.args]
+        if isinstance(node, ast.Lambda):
+            body = node.body
+        else:
+            stmts = [st for st in node.body if not (isinstance(st, ast.Expr) and isinstance(st.value, ast.Constant))]
+            body = None
+            if len(stmts) == 1 and isinstance(stmts[0], ast.Return):
+                body = stmts[0].value
+            elif len(stmts) == 1 and isinstance(stmts[0], ast.Assign) and len(args) == 2:
+                t = stmts[0].targets[0]
+                if (isinstance(t, ast.Attribute) and isinstance(t.value, ast.Name) and t.value.id == args[0]
+                        and isinstance(stmts[0].value, ast.Name) and stmts[0].value.id == args[1]):
+                    r = True
+        if body is not None and len(args) == 1:
+            if isinstance(body, ast.Attribute) and isinstance(body.value, ast.Name) and body.value.id == args[0]:
+                r = True
+            elif isinstance(body, ast.Constant):
+                r = True
+    except Exception:
+        r = False
+    _TRIVIAL[pyf] = r
+    return r
+
+
 # --------------------------------------------------------------------------- interpreter
 
 
@@ -1205,6 +1242,12 @@ class Interp:
             return Sym('int', to_int(a) - to_int(b))
         if isinstance(op, ast.Mult) and ka in ('int', 'bool') and kb in ('int', 'bool'):
             return Sym('int', to_int(a) * to_int(b))
+        if isinstance(op, ast.Mult) and {ka, kb} == {'str', 'int'}:
+            sv, n = (a, b) if ka == 'str' else (b, a)
+            if isinstance(n, int):
+                if n <= 0:
+                    return ''
+                return Sym('str', z3.Concat(*[lift(sv)] * n)) if n > 1 else sv
         if isinstance(op, ast.Mult) and ka == 'list' and isinstance(b, int):
             return SList(a.items * b)
         if isinstance(op, ast.FloorDiv) and ka == 'int' and isinstance(b, int) and b > 0:
@@ -1262,7 +1305,16 @@ class Interp:
             return r if isinstance(r, bool) else Sym('bool', r)
         return True
 
+    _DUNDER = {ast.Eq: '__eq__', ast.NotEq: '__ne__', ast.Lt: '__lt__', ast.LtE: '__le__', ast.Gt: '__gt__', ast.GtE: '__ge__'}
+    _RDUNDER = {ast.Eq: '__eq__', ast.NotEq: '__ne__', ast.Lt: '__gt__', ast.LtE: '__ge__', ast.Gt: '__lt__', ast.GtE: '__le__'}
+
     def compare(self, op, a, b):
+        if type(op) in self._DUNDER and (isinstance(a, Obj) or isinstance(b, Obj)):
+            M = self.p.engine.models
+            if isinstance(a, Obj) and ('method', a.cls, self._DUNDER[type(op)]) in M:
+                return truth(M[('method', a.cls, self._DUNDER[type(op)])].fn(self, [a, b], {}))
+            if isinstance(b, Obj) and ('method', b.cls, self._RDUNDER[type(op)]) in M:
+                return truth(M[('method', b.cls, self._RDUNDER[type(op)])].fn(self, [b, a], {}))
         if isinstance(op, ast.Is) or isinstance(op, ast.IsNot):
             r = self.is_(a, b)
             return z3_not(r) if isinstance(op, ast.IsNot) else r
@@ -1607,7 +1659,7 @@ class Interp:
         m = eng.model_for(pyf)
         if m is not None:
             return m.fn(self, args, kwargs)
-        if pyf in eng.inline or getattr(pyf, '__pyvc_inline__', False):
+        if pyf in eng.inline or getattr(pyf, '__pyvc_inline__', False) or is_trivial_accessor(pyf):
             f = eng.func_cache.get(pyf)
             if f is None:
                 f = func_from_pyfunc(pyf, spec=getattr(pyf, '__pyvc_spec__', False))
